@@ -25,6 +25,7 @@ type c11Step struct {
 	Join    bool   // peer step: same segment payload as the preceding peer step
 	Cut     int    // peer step: cut the segment payload after Cut bytes (0: no cut)
 	Barrier bool   // local step: first wait until the engine has taken in everything the peer wrote
+	HoldMs  int    // local step with Barrier: then keep agency for this long before sending
 }
 
 func (s c11Step) desc() string {
@@ -129,8 +130,13 @@ walk:
 			case c < 5:
 				m := mk(pickKind(rt, perm, "kind"))
 				next, _ := permits(sm, nil, s, m)
-				steps = append(steps, c11Step{Local: true, Msg: m, Class: "ok",
-					Barrier: rapid.IntRange(0, 3).Draw(rt, "barrier") != 0})
+				ls := c11Step{Local: true, Msg: m, Class: "ok",
+					Barrier: rapid.IntRange(0, 3).Draw(rt, "barrier") != 0}
+				if len(early) > 0 && ls.Barrier && rapid.IntRange(0, 24).Draw(rt, "longHold") == 0 {
+					// early messages are queued and the local side keeps agency for a long time
+					ls.HoldMs = rapid.IntRange(120, 300).Draw(rt, "holdMs")
+				}
+				steps = append(steps, ls)
 				s = next
 			case c < 9:
 				m := mk(pickKind(rt, all, "kind"))
@@ -347,6 +353,10 @@ func runC11(rec *evi.Recorder, rt *rapid.T, sp *protoSpec, role protocol.Protoco
 				n := wellFormedSent
 				r.waitFor(2*time.Second, func() bool { return r.accounted >= n || len(r.errs) > 0 })
 				settle(200 * time.Microsecond)
+				if st.HoldMs > 0 {
+					time.Sleep(time.Duration(st.HoldMs) * time.Millisecond)
+					rec.Class("long_agency_hold_with_early_msgs_queued")
+				}
 			}
 			if err := r.proto.SendMessage(sp.fresh(st.Msg)); err != nil {
 				sendErrs = append(sendErrs, fmt.Sprintf("step %d: %v", i, err))
